@@ -19,7 +19,7 @@ try:
         print("MUTATION DOES NOT APPLY: %d occurrences (expected %d)" % (n, a.count)); sys.exit(3)
     open(p, "w").write(s.replace(a.old, a.new))
     for c in a.check:
-        r = subprocess.run(["./check", c, "--tier", a.tier, "--repo", d, "--no-evidence", "--jobs", a.jobs, "--seed", a.seed],
+        r = subprocess.run(["./check", c, "--tier", a.tier, "--repo", d, "--no-evidence", "--no-replays", "--jobs", a.jobs, "--seed", a.seed],
                            cwd=os.path.dirname(os.path.dirname(os.path.abspath(__file__))), capture_output=True, text=True)
         lines = [l for l in r.stdout.splitlines() if l.startswith(("VIOLATION", "INCONCLUSIVE", "KNOWN", "ERROR", "INFRA"))]
         print("== %s rc=%d: %d report lines" % (c, r.returncode, len(lines)))
